@@ -72,6 +72,9 @@ PLAIN = [
     ("auto_home-comment", lambda g: g.auto_home(comment="go home")),
     ("auto_home-x-comment", lambda g: g.auto_home(x=0, comment="home x")),
     ("probe-comment", lambda g: g.probe("towards", z=-1.5, comment="touch off")),
+    ("move-comment-empty", lambda g: g.move(x=1.5, comment="")),
+    ("auto_home-comment-empty", lambda g: g.auto_home(comment="")),
+    ("set_axis-comment-empty", lambda g: g.set_axis(x=0, comment="")),
     ("rapid-comment", lambda g: g.rapid(x=1.5, comment="reposition")),
     ("move_absolute-comment", lambda g: g.move_absolute(x=1.5, comment="fixed point")),
     # line-break characters inside the text: every emitted line still ends exactly once, with the configured ending
